@@ -133,21 +133,19 @@ theorem NoDangling.assign {c : Spec} (h : NoDangling c) (s : Nat) (t : Tag) (n :
   · rename_i hd; exact h.setTag ⟨s, t, n, f, v⟩ hd
   · exact h
 
+theorem NoDangling.addDecl {c : Spec} (h : NoDangling c) (d : Decl) (tag : Option Tag) :
+    NoDangling (c.addDecl d tag) := by
+  cases tag with
+  | none => exact h.setDecl d
+  | some t => exact (h.setDecl d).setTag _ (Spec.hasDecl_setDecl_self c d)
+
 /-- every effect keeps the database free of dangling tags -/
 theorem NoDangling.apply {c : Spec} (h : NoDangling c) (e : Eff) : NoDangling (applyDb e c) := by
   cases e with
-  | dbDeclare d tag =>
-    cases tag with
-    | none => exact h.setDecl d
-    | some t => exact (h.setDecl d).setTag _ (Spec.hasDecl_setDecl_self c d)
-  | dbUndeclare s n v f => exact h.delDecl s n v f
-  | dbAssign s t n f v => exact h.assign s t n f v
-  | dbUnassign s t n f => exact h.delTag s t n f
-  | memAdd _ _ => exact h
-  | memRemove _ _ _ _ => exact h
-  | memAssign _ _ _ _ _ => exact h
-  | memUnassign _ _ _ _ => exact h
-  | save _ _ => exact h
+  | declare d tag => exact h.addDecl d tag
+  | undeclare s n v f => exact h.delDecl s n v f
+  | assign s t n f v => exact h.assign s t n f v
+  | unassign s t n f => exact h.delTag s t n f
   | rmTree _ => exact h
 
 theorem KeysUnique.setDecl {c : Spec} (h : KeysUnique c) (d : Decl) : KeysUnique (c.setDecl d) := by
@@ -189,20 +187,18 @@ theorem KeysUnique.assign {c : Spec} (h : KeysUnique c) (s : Nat) (t : Tag) (n :
   · exact h.setTag _
   · exact h
 
+theorem KeysUnique.addDecl {c : Spec} (h : KeysUnique c) (d : Decl) (tag : Option Tag) :
+    KeysUnique (c.addDecl d tag) := by
+  cases tag with
+  | none => exact h.setDecl d
+  | some t => exact (h.setDecl d).setTag _
+
 theorem KeysUnique.apply {c : Spec} (h : KeysUnique c) (e : Eff) : KeysUnique (applyDb e c) := by
   cases e with
-  | dbDeclare d tag =>
-    cases tag with
-    | none => exact h.setDecl d
-    | some t => exact (h.setDecl d).setTag _
-  | dbUndeclare s n v f => exact h.delDecl s n v f
-  | dbAssign s t n f v => exact h.assign s t n f v
-  | dbUnassign s t n f => exact h.delTag s t n f
-  | memAdd _ _ => exact h
-  | memRemove _ _ _ _ => exact h
-  | memAssign _ _ _ _ _ => exact h
-  | memUnassign _ _ _ _ => exact h
-  | save _ _ => exact h
+  | declare d tag => exact h.addDecl d tag
+  | undeclare s n v f => exact h.delDecl s n v f
+  | assign s t n f v => exact h.assign s t n f v
+  | unassign s t n f => exact h.delTag s t n f
   | rmTree _ => exact h
 
 /-- the invariant of the database content -/
@@ -221,39 +217,16 @@ theorem DbInv.foldl {c : Spec} (h : DbInv c) (es : List Eff) : DbInv (es.foldl (
 /-! ## the footprint of an effect -/
 
 def Eff.touchesDecl : Eff → Decl → Bool
-  | .dbDeclare d _, x => x.sameKey d
-  | .dbUndeclare s n v f, x => x.hasKey s n v f
+  | .declare d _, x => x.sameKey d
+  | .undeclare s n v f, x => x.hasKey s n v f
   | _, _ => false
 
 def Eff.touchesTag : Eff → TagRec → Bool
-  | .dbDeclare d (some t), r => r.hasKey d.stack t d.name d.flav
-  | .dbUndeclare s n v f, r => r.pointsAt s n v f
-  | .dbAssign s t n f _, r => r.hasKey s t n f
-  | .dbUnassign s t n f, r => r.hasKey s t n f
+  | .declare d (some t), r => r.hasKey d.stack t d.name d.flav
+  | .undeclare s n v f, r => r.pointsAt s n v f
+  | .assign s t n f _, r => r.hasKey s t n f
+  | .unassign s t n f, r => r.hasKey s t n f
   | _, _ => false
-
-theorem applyDb_frame_decl (e : Eff) (c : Spec) (x : Decl) (h : e.touchesDecl x = false) :
-    x ∈ (applyDb e c).decls ↔ x ∈ c.decls := by
-  cases e with
-  | dbDeclare d tag =>
-    have hx : x ≠ d := by
-      rintro rfl
-      have : x.sameKey x = true := by simp [Decl.sameKey_iff]
-      simp [Eff.touchesDecl, this] at h
-    have : x ∈ (c.setDecl d).decls ↔ x ∈ c.decls := by
-      rw [Spec.mem_setDecl]; simp only [Eff.touchesDecl] at h; simp [hx, h]
-    cases tag <;> simpa [applyDb] using this
-  | dbUndeclare s n v f =>
-    simp only [Eff.touchesDecl] at h
-    simp [applyDb, Spec.mem_delDecl_decls, h]
-  | dbAssign s t n f v => simp only [applyDb, Spec.assign]; split <;> simp
-  | dbUnassign s t n f => simp [applyDb]
-  | memAdd _ _ => simp [applyDb]
-  | memRemove _ _ _ _ => simp [applyDb]
-  | memAssign _ _ _ _ _ => simp [applyDb]
-  | memUnassign _ _ _ _ => simp [applyDb]
-  | save _ _ => simp [applyDb]
-  | rmTree _ => simp [applyDb]
 
 theorem Spec.mem_setTag_of_not_sameKey {c : Spec} {r x : TagRec} (h : x.sameKey r = false) :
     x ∈ (c.setTag r).tags ↔ x ∈ c.tags := by
@@ -263,91 +236,101 @@ theorem Spec.mem_setTag_of_not_sameKey {c : Spec} {r x : TagRec} (h : x.sameKey 
     rw [this] at h; exact Bool.noConfusion h
   rw [Spec.mem_setTag]; simp [hx, h]
 
+theorem Spec.mem_setDecl_of_not_sameKey {c : Spec} {d x : Decl} (h : x.sameKey d = false) :
+    x ∈ (c.setDecl d).decls ↔ x ∈ c.decls := by
+  have hx : x ≠ d := by
+    rintro rfl
+    have : x.sameKey x = true := by simp [Decl.sameKey_iff]
+    rw [this] at h; exact Bool.noConfusion h
+  rw [Spec.mem_setDecl]; simp [hx, h]
+
+@[simp] theorem Spec.decls_addDecl_some (c : Spec) (d : Decl) (t : Tag) :
+    (c.addDecl d (some t)).decls = (c.setDecl d).decls := rfl
+@[simp] theorem Spec.addDecl_none (c : Spec) (d : Decl) : c.addDecl d none = c.setDecl d := rfl
+
+theorem applyDb_frame_decl (e : Eff) (c : Spec) (x : Decl) (h : e.touchesDecl x = false) :
+    x ∈ (applyDb e c).decls ↔ x ∈ c.decls := by
+  cases e with
+  | declare d tag =>
+    simp only [Eff.touchesDecl] at h
+    cases tag <;> simpa [applyDb] using Spec.mem_setDecl_of_not_sameKey h
+  | undeclare s n v f =>
+    simp only [Eff.touchesDecl] at h
+    simp [applyDb, Spec.mem_delDecl_decls, h]
+  | assign s t n f v => simp only [applyDb, Spec.assign]; split <;> simp
+  | unassign s t n f => simp [applyDb]
+  | rmTree _ => simp [applyDb]
+
 theorem applyDb_frame_tag (e : Eff) (c : Spec) (x : TagRec) (h : e.touchesTag x = false) :
     x ∈ (applyDb e c).tags ↔ x ∈ c.tags := by
   cases e with
-  | dbDeclare d tag =>
+  | declare d tag =>
     cases tag with
     | none => simp [applyDb]
     | some t =>
       simp only [Eff.touchesTag] at h
-      simp only [applyDb]
+      simp only [applyDb, Spec.addDecl]
       rw [Spec.mem_setTag_of_not_sameKey (by simpa [TagRec.sameKey] using h)]
       simp
-  | dbUndeclare s n v f =>
+  | undeclare s n v f =>
     simp only [Eff.touchesTag] at h
     simp [applyDb, Spec.mem_delDecl_tags, h]
-  | dbAssign s t n f v =>
+  | assign s t n f v =>
     simp only [Eff.touchesTag] at h
     simp only [applyDb, Spec.assign]; split
     · exact Spec.mem_setTag_of_not_sameKey (by simpa [TagRec.sameKey] using h)
     · exact Iff.rfl
-  | dbUnassign s t n f =>
+  | unassign s t n f =>
     simp only [Eff.touchesTag] at h
     simp [applyDb, Spec.mem_delTag, h]
-  | memAdd _ _ => simp [applyDb]
-  | memRemove _ _ _ _ => simp [applyDb]
-  | memAssign _ _ _ _ _ => simp [applyDb]
-  | memUnassign _ _ _ _ => simp [applyDb]
-  | save _ _ => simp [applyDb]
   | rmTree _ => simp [applyDb]
 
 /-- an effect that stays within product `n`, flavor `f`, the versions `vs` and the tags `ts` -/
 def Within (n : Name) (f : Flav) (vs : Ver → Prop) (ts : Tag → Prop) : Eff → Prop
-  | .dbDeclare d tag => d.name = n ∧ d.flav = f ∧ vs d.ver ∧ ∀ t, tag = some t → ts t
-  | .dbUndeclare _ n' v f' => n' = n ∧ f' = f ∧ vs v
-  | .dbAssign _ t n' f' _ => n' = n ∧ f' = f ∧ ts t
-  | .dbUnassign _ t n' f' => n' = n ∧ f' = f ∧ ts t
-  | _ => True
+  | .declare d tag => d.name = n ∧ d.flav = f ∧ vs d.ver ∧ ∀ t, tag = some t → ts t
+  | .undeclare _ n' v f' => n' = n ∧ f' = f ∧ vs v
+  | .assign _ t n' f' _ => n' = n ∧ f' = f ∧ ts t
+  | .unassign _ t n' f' => n' = n ∧ f' = f ∧ ts t
+  | .rmTree _ => True
 
 theorem Within.touchesDecl {n : Name} {f : Flav} {vs : Ver → Prop} {ts : Tag → Prop} {e : Eff}
     (h : Within n f vs ts e) {x : Decl} (hx : e.touchesDecl x = true) : x.name = n ∧ x.flav = f ∧ vs x.ver := by
   cases e with
-  | dbDeclare d tag =>
+  | declare d tag =>
     simp only [Eff.touchesDecl, Decl.sameKey_iff] at hx
     obtain ⟨h1, h2, h3, _⟩ := h
     exact ⟨hx.2.1 ▸ h1, hx.2.2.2 ▸ h2, hx.2.2.1 ▸ h3⟩
-  | dbUndeclare s n' v f' =>
+  | undeclare s n' v f' =>
     simp only [Eff.touchesDecl, Decl.hasKey_iff] at hx
     obtain ⟨h1, h2, h3⟩ := h
     exact ⟨hx.2.1 ▸ h1, hx.2.2.2 ▸ h2, hx.2.2.1 ▸ h3⟩
-  | dbAssign _ _ _ _ _ => simp [Eff.touchesDecl] at hx
-  | dbUnassign _ _ _ _ => simp [Eff.touchesDecl] at hx
-  | memAdd _ _ => simp [Eff.touchesDecl] at hx
-  | memRemove _ _ _ _ => simp [Eff.touchesDecl] at hx
-  | memAssign _ _ _ _ _ => simp [Eff.touchesDecl] at hx
-  | memUnassign _ _ _ _ => simp [Eff.touchesDecl] at hx
-  | save _ _ => simp [Eff.touchesDecl] at hx
+  | assign _ _ _ _ _ => simp [Eff.touchesDecl] at hx
+  | unassign _ _ _ _ => simp [Eff.touchesDecl] at hx
   | rmTree _ => simp [Eff.touchesDecl] at hx
 
 theorem Within.touchesTag {n : Name} {f : Flav} {vs : Ver → Prop} {ts : Tag → Prop} {e : Eff}
     (h : Within n f vs ts e) {x : TagRec} (hx : e.touchesTag x = true) :
     x.name = n ∧ x.flav = f ∧ (ts x.tag ∨ vs x.ver) := by
   cases e with
-  | dbDeclare d tag =>
+  | declare d tag =>
     cases tag with
     | none => simp [Eff.touchesTag] at hx
     | some t =>
       simp only [Eff.touchesTag, TagRec.hasKey_iff] at hx
       obtain ⟨h1, h2, _, h4⟩ := h
       exact ⟨hx.2.2.1 ▸ h1, hx.2.2.2 ▸ h2, Or.inl (hx.2.1 ▸ h4 t rfl)⟩
-  | dbUndeclare s n' v f' =>
+  | undeclare s n' v f' =>
     simp only [Eff.touchesTag, TagRec.pointsAt_iff] at hx
     obtain ⟨h1, h2, h3⟩ := h
     exact ⟨hx.2.1 ▸ h1, hx.2.2.1 ▸ h2, Or.inr (hx.2.2.2 ▸ h3)⟩
-  | dbAssign s t n' f' v =>
+  | assign s t n' f' v =>
     simp only [Eff.touchesTag, TagRec.hasKey_iff] at hx
     obtain ⟨h1, h2, h3⟩ := h
     exact ⟨hx.2.2.1 ▸ h1, hx.2.2.2 ▸ h2, Or.inl (hx.2.1 ▸ h3)⟩
-  | dbUnassign s t n' f' =>
+  | unassign s t n' f' =>
     simp only [Eff.touchesTag, TagRec.hasKey_iff] at hx
     obtain ⟨h1, h2, h3⟩ := h
     exact ⟨hx.2.2.1 ▸ h1, hx.2.2.2 ▸ h2, Or.inl (hx.2.1 ▸ h3)⟩
-  | memAdd _ _ => simp [Eff.touchesTag] at hx
-  | memRemove _ _ _ _ => simp [Eff.touchesTag] at hx
-  | memAssign _ _ _ _ _ => simp [Eff.touchesTag] at hx
-  | memUnassign _ _ _ _ => simp [Eff.touchesTag] at hx
-  | save _ _ => simp [Eff.touchesTag] at hx
   | rmTree _ => simp [Eff.touchesTag] at hx
 
 /-! ## what the commands emit -/
@@ -370,11 +353,7 @@ theorem doUnassign_trOK {t : Tag} {s : Nat} {na : Bool} {p : Proc} (ht : ts t)
   unfold doUnassign
   split
   · exact h
-  · have h1 : TrOK (Within n f vs ts) (p.emit (.dbUnassign s t n f)) := h.emit ⟨rfl, rfl, ht⟩
-    dsimp only
-    split
-    · exact (h1.emit (by trivial)).emit (by trivial)
-    · exact h1
+  · exact h.emit (e := .unassign s t n f) ⟨rfl, rfl, ht⟩
 
 theorem purge_trOK {t : Tag} (ht : ts t) (ds : List Decl) {p : Proc}
     (h : TrOK (Within n f vs ts) p) : TrOK (Within n f vs ts) (purge f t n ds p) := by
@@ -395,7 +374,7 @@ theorem assignTag_trOK {t : Tag} {v : Ver} {stacks : List Nat} {p : Proc} (ht : 
   · exact h
   · split
     · exact h
-    · exact ((h.emit (e := .dbAssign _ t n f v) ⟨rfl, rfl, ht⟩).emit (by trivial)).emit (by trivial)
+    · exact h.emit (e := .assign _ t n f v) ⟨rfl, rfl, ht⟩
 
 theorem unassignTag_trOK {nst : Nat} {t : Tag} {v : Option Ver} {st : Option Nat} {na : Bool} {p : Proc} (ht : ts t)
     (h : TrOK (Within n f vs ts) p) : TrOK (Within n f vs ts) (unassignTag nst f t n v st na p).2 := by
@@ -459,11 +438,10 @@ theorem declareFinish_trOK {nst : Nat} {a : DeclareArgs} {r : Resolved} {tag : O
   dsimp only
   have h1 : TrOK (Within a.name a.self (fun v => v = a.ver) ts)
       (if (rd == .write && !a.noaction) = true then
-        ((p.emit (.dbDeclare ⟨r.target, a.name, a.ver, a.self, r.d, r.table⟩ tag)).emit
-          (.memAdd ⟨r.target, a.name, a.ver, a.self, r.d, r.table⟩ tag)).emit (.save r.target a.self)
+        p.emit (.declare ⟨r.target, a.name, a.ver, a.self, r.d, r.table⟩ tag)
        else p) := by
     split
-    · exact ((h.emit (e := .dbDeclare _ tag) ⟨rfl, rfl, rfl, ht⟩).emit (by trivial)).emit (by trivial)
+    · exact h.emit (e := .declare _ tag) ⟨rfl, rfl, rfl, ht⟩
     · exact h
   split
   · exact h1
@@ -506,7 +484,7 @@ theorem removeVersion_trOK {a : UndeclareArgs} {v : Ver} {s : Nat} {p : Proc} {v
   · exact h
   · split
     · exact h
-    · exact ((h.emit (e := .dbUndeclare s a.name v a.self) ⟨rfl, rfl, hv⟩).emit (by trivial)).emit (by trivial)
+    · exact h.emit (e := .undeclare s a.name v a.self) ⟨rfl, rfl, hv⟩
 
 theorem undeclareVersion_trOK {nst : Nat} {a : UndeclareArgs} {ver : Option Ver} {p : Proc}
     {vs : Ver → Prop} (hv : ∀ v, (∀ v', ver = some v' → v = v') → vs v)
